@@ -457,7 +457,7 @@ theorem ord_searchStep (inv : Bool) (m : Method) (attr term : Str) (tl : Bool) (
   | seq a items =>
     simp only [searchStep]
     split
-    · exact ord_kids (by simpa [kids] using searchList_sublist (mt := mt) (dsc := dsc) inv m attr term (isAoh items) (seqKidsFrom c items 0))
+    · exact ord_kids (by simpa [kids] using searchList_sublist (mt := mt) (dsc := dsc) inv m attr term (ev_isAoh items) (seqKidsFrom c items 0))
     · exact ord_nil _ _
   | set a ms =>
     simp only [searchStep]
